@@ -7,7 +7,7 @@ SPEC = dict(id="C03", kind="world", monitor="verdict_ok", binary="c05",
                "(Model/StatusUtil.v); goal flag = some value meets the goal, verdict and reason by the precedence goal > maxFailed > maxTrials, "
                "exclusivity, Running false once completed, completion time, untouched-when-completed are Coq theorems for every trial list, spec and "
                "non-completed prior condition list; the model is compared with the real functions on generated cases each run and the boolean form "
-               "of the property is evaluated on the implementation's output.  The run-level stability theorem over the joint model is not yet proved (monitored)",
+               "of the property is evaluated on the implementation's output.  Over runs of the joint model (every interleaving, cache lag, fault, abort): stability (C03_stable over runs), exclusivity (C03_exclusive_over_runs, invariant ExInv), justification of a settled verdict by the stored trials (C03_verdict_justified) and, reason by reason, at the step at which the verdict appears (C03_verdict_reason_justified, invariant RsInv); the whole step monitor holds on the model's runs (C03_run_monitor_sound)",
     coq_targets=["theories/Props/C03.vo", "theories/Corr/C03.vo", "theories/Proofs/C03Monitor.vo", "theories/Corr/WorldAll.vo"],
     assumptions=[
         "'reach maxFailedTrialCount' is read as failed + metrics-unavailable >= max(maxFailedTrialCount, 1): with 0 the code needs one failure (DESIGN.md C03)",
